@@ -811,12 +811,42 @@ def install_drops_acked(**kw):
     return sc.rec
 
 
+def snapshot_at_membership_entry(**kw):
+    """a snapshot taken while the last applied entry is a membership change, shipped to a lagging follower: the
+    change belongs to the snapshot"""
+    sc = Script(base_cfg([1, 2, 3], dyn=True, fallback=100000, chunk=65536), **kw)
+    s = sc.s
+    s.boot()
+    sc.isolate(3)                     # 3 lags from the start: it will need the snapshot
+    sc.elect(1, [2])
+    sc.settle([1, 2], 2)
+    s.submit(1, size=5)
+    sc.settle([1, 2], 3)
+    s.voters.append(4)
+    s.clock[4] = 0
+    sc.rec.do(('restart', 4, [1, 2, 3], 1, 5))
+    s.alive.add(4)
+    sc.rec.do(('admin', 1, True, 4, 901))
+    s.tick(1, 11)                     # 'add 4' appended on 1
+    for b in (1, 2):
+        s.connect(b, 4)
+        s.connect(4, b)
+    sc.settle([1, 2, 4], 4)           # ... committed and applied by 1, 2 and 4: it is the last applied entry
+    sc.rec.do(('compact', 1))
+    s.tick(1, 11)
+    s.tick(1, 11)
+    sc.join(3)
+    sc.settle([1, 2, 3, 4], 5)        # 3 catches up from the snapshot: its member set must contain 4
+    return sc.rec
+
+
 SCENARIOS = {'d7': d7, 'd8': d8, 'd17': d17, 'd16': d16, 'd1': d1, 'd20': d20,
              'snapshot_catchup': snapshot_catchup, 'forwarded': forwarded,
              'restart_double_vote': restart_double_vote, 'd18': d18, 'd10': d10, 'd19': d19, 'd6': d6,
              'ser_fork': ser_fork, 'ser_custom': ser_custom, 'fig8': fig8, 'stale_match_reelected': stale_match_reelected,
              'stale_cursor': stale_cursor, 'compact_during_install': compact_during_install,
-             'member_rollback': member_rollback, 'backoff_burst': backoff_burst, 'snapshot_members': snapshot_members, 'old_snapshot_again': old_snapshot_again, 'dump_kill_points': dump_kill_points, 'install_drops_acked': install_drops_acked}
+             'member_rollback': member_rollback, 'backoff_burst': backoff_burst, 'snapshot_members': snapshot_members, 'old_snapshot_again': old_snapshot_again, 'dump_kill_points': dump_kill_points, 'install_drops_acked': install_drops_acked,
+             'snapshot_at_membership_entry': snapshot_at_membership_entry}
 NAMES = sorted(SCENARIOS)
 
 
